@@ -414,3 +414,62 @@ def impl_expandlib(case, scratch):
                 "page_ast": page_ast, "lib_ast": lib_ast, "calls": calls}
     finally:
         close_ctx(ctx)
+
+
+# ---------------------------------------------------------------- C15
+def _tree(node):
+    """Canonical JSON form of a parse tree."""
+    if isinstance(node, str):
+        return node
+    d = {"k": node.kind.name}
+    sarg = getattr(node, "sarg", "")
+    if sarg:
+        d["s"] = sarg
+    largs = getattr(node, "largs", [])
+    if largs:
+        d["a"] = [[_tree(x) for x in l] for l in largs]
+    attrs = getattr(node, "attrs", {})
+    if attrs:
+        d["at"] = dict(attrs)
+    if getattr(node, "children", None):
+        d["c"] = [_tree(x) for x in node.children]
+    if getattr(node, "definition", None):
+        d["d"] = [_tree(x) for x in node.definition]
+    return d
+
+
+_c15_ctx = None
+
+
+def impl_c15(case, scratch):
+    """case: texts: list of wikitext; returns for each: expand output, parse tree, hook calls"""
+    global _c15_ctx
+    if _c15_ctx is None:
+        ctx = new_ctx(scratch)
+        ctx.add_page("Template:echo", 10, "{{{1}}}")
+        ctx.add_page("Template:a", 10, "A[{{{1|}}}]")
+        ctx.add_page("Template:two", 10, "{{{1}}}-{{{2|}}}")
+        ctx.db_conn.commit()
+        _c15_ctx = ctx
+    ctx = _c15_ctx
+    outs = []
+    for t in case["texts"]:
+        calls = []
+
+        def tfn(name, ht):
+            calls.append(name)
+            return None
+        ctx.start_page("Tt")
+        try:
+            e = ctx.expand(t, template_fn=tfn)
+        except Exception as ex:  # noqa
+            e = ["raised", type(ex).__name__]
+            ctx.expand_stack = []
+        ctx.start_page("Tt")
+        try:
+            p = _tree(ctx.parse(t))
+        except Exception as ex:  # noqa
+            p = ["raised", type(ex).__name__]
+        outs.append({"expand": e, "tree": p, "calls": calls, "pstack": len(ctx.parser_stack)})
+        ctx.parser_stack = []
+    return {"outcome": "ok", "outs": outs}
